@@ -4,6 +4,7 @@ package scen
 
 import (
 	"fmt"
+	"net"
 	"os"
 	"runtime"
 	"strings"
@@ -15,6 +16,7 @@ import (
 	"github.com/IrineSistiana/mosproxy/verifsim/vbytes"
 	"github.com/IrineSistiana/mosproxy/verifsim/vgnet"
 	"github.com/IrineSistiana/mosproxy/verifsim/vipv6"
+	"github.com/IrineSistiana/mosproxy/verifsim/vnet"
 	"github.com/IrineSistiana/mosproxy/verifsim/vsync"
 )
 
@@ -73,10 +75,27 @@ func installKnobs(s *sim.Sim, k plan.Knobs) {
 	}
 	vipv6.Coalesce = time.Duration(k.UDPCoalesce) * time.Microsecond
 	if os.Getenv("SIM_GNET_DEBUG") != "" {
-		vgnet.Debug = func(kind, link string, n, a, b, c int) { s.Logf(kind, "%s n=%d inbound %d->%d left=%d", link, n, a, b, c) }
+		vgnet.Debug = func(kind, link string, n, a, b, c int) {
+			s.Logf(kind, "%s n=%d inbound %d->%d left=%d", link, n, a, b, c)
+		}
 	}
 	if k.GnetReadCap > 0 {
 		vgnet.ReadBufferCap = k.GnetReadCap
+	}
+	vsync.OrderKey = func(c any) (uint64, bool) {
+		for i := 0; i < 3; i++ {
+			switch x := c.(type) {
+			case *vnet.StreamConn:
+				return uint64(x.ID()), true
+			case *vnet.UDPConn:
+				return uint64(x.ID()), true
+			case interface{ NetConn() net.Conn }:
+				c = x.NetConn()
+			default:
+				return 0, false
+			}
+		}
+		return 0, false
 	}
 	if k.YieldDensity > 0 {
 		vsync.Hook = func(pc uintptr) {
